@@ -355,7 +355,7 @@ def r4_node_typestate(ctx):
                     for idx, blk in enumerate(upto):
                         t = f.term(blk)
                         if t['k'] == 'switch' and di < len(decs) and decs[di][0] == blk:
-                            (_, a), = path_atoms(f, path, [decs[di]])
+                            (_, a) = path_atoms(f, path, [decs[di]])[0]
                             di += 1
                             if a and a[0] == 'bool' and a[1][0] == 'call' and a[1][1].endswith('::is_null') and any(x[0] == 'field' and x[2] == 'next' for x in walk(a[1])):
                                 last = (idx, blk, a[2])
